@@ -63,6 +63,7 @@ type directive struct {
 	bErr   int
 	bCtx   bool    // the builder error is a context cancellation
 	bTTLs  []int64 // builder: WithTTL(ctx, ttl, true) calls
+	bIso   []int64 // builder: WithTTL(derived, ttl, true) calls on a context derived with WithTTL(ctx, same ttl, false)
 	cancel func()  // builder: cancel the caller's context before returning (C04/C06)
 }
 
